@@ -19,14 +19,18 @@ const (
 )
 
 type spySigner struct {
-	alg   cose.Algorithm
-	kind  SigOut
-	sig   []byte
-	calls [][]byte
+	alg    cose.Algorithm
+	kind   SigOut
+	sig    []byte
+	calls  [][]byte
+	before func() // work the key does before it reads its input (e.g. signing an audit record with the same library)
 }
 
 func (s *spySigner) Algorithm() cose.Algorithm { return s.alg }
 func (s *spySigner) Sign(_ io.Reader, content []byte) ([]byte, error) {
+	if s.before != nil {
+		s.before()
+	}
 	s.calls = append(s.calls, append([]byte{}, content...))
 	switch s.kind {
 	case SOk:
@@ -52,13 +56,17 @@ func (s *spySigner) coq() string {
 type vcall struct{ content, sig []byte }
 
 type spyVerifier struct {
-	alg   cose.Algorithm
-	err   error // nil, cose.ErrVerification, errScripted
-	calls []vcall
+	alg    cose.Algorithm
+	err    error // nil, cose.ErrVerification, errScripted
+	calls  []vcall
+	before func()
 }
 
 func (v *spyVerifier) Algorithm() cose.Algorithm { return v.alg }
 func (v *spyVerifier) Verify(content, sig []byte) error {
+	if v.before != nil {
+		v.before()
+	}
 	var sc []byte
 	if sig != nil {
 		sc = append([]byte{}, sig...)
@@ -286,10 +294,23 @@ func decodeKind(kind string, data []byte) (d decoded) {
 			}
 		case "DKey":
 			var k cose.Key
+			orig := append([]byte{}, data...)
 			if d.err = scrib(k.UnmarshalCBOR(data)); d.err == nil {
 				d.key = &k
 				d.value = oKey(&k)
 				d.reenc, d.reerr = k.MarshalCBOR()
+			}
+			// the same bytes into a Key variable that has been used for every earlier key of the run
+			err2 := reusedKey.UnmarshalCBOR(append([]byte{}, orig...))
+			if len(reuseAnomalies) < 5 {
+				if (err2 == nil) != (d.err == nil) {
+					reuseAnomalies = append(reuseAnomalies, anomaly{fmt.Sprintf("decoding a COSE_Key into a used variable gives %v, into a fresh one %v", err2, d.err), map[string]any{"data": hx(orig), "previous": reusedKeyPrev}})
+				} else if err2 == nil && oKey(&reusedKey) != d.value {
+					reuseAnomalies = append(reuseAnomalies, anomaly{"a COSE_Key decoded into a used variable differs from the same bytes decoded into a fresh one: " + trunc(oKey(&reusedKey), 300) + " vs " + trunc(d.value, 300), map[string]any{"data": hx(orig), "previous": reusedKeyPrev}})
+				}
+			}
+			if err2 == nil {
+				reusedKeyPrev = hx(orig)
 			}
 		default:
 			panic("bad kind " + kind)
@@ -314,3 +335,14 @@ func opDec(kind string, data []byte) string { return "OpDec " + kind + " " + cBy
 func hasOther(term string) bool { return strings.Contains(term, "GOther") }
 
 func fmtPanic(v any) string { return fmt.Sprint(v) }
+
+type anomaly struct {
+	desc string
+	rep  map[string]any
+}
+
+var (
+	reusedKey      cose.Key
+	reusedKeyPrev  string
+	reuseAnomalies []anomaly
+)
